@@ -165,7 +165,9 @@ Fixpoint wf (e : mexpr) : bool :=
       (2 <=? length ts) && forallb (fun t => negb (is_MZero t || is_MAdd t)) ts
       && (count_concrete ts <=? 1) && forallb wf ts
   | MMul _ fs =>
-      (1 <=? length fs) && forallb (fun t => negb (is_MZero t || is_MIdent t || is_MMul t)) fs
+      (1 <=? length fs)
+      && (forallb (fun t => negb (is_MZero t || is_MIdent t || is_MMul t)) fs
+          || match fs with [MIdent _] => true | _ => false end)     (* scalar * I *)
       && forallb wf fs
   | MHad fs =>
       (2 <=? length fs) && forallb (fun t => negb (is_MZero t || is_MHad t)) fs
@@ -175,33 +177,45 @@ Fixpoint wf (e : mexpr) : bool :=
   end.
 
 (* ---------------------------------------------------------------- guards (defect classes) *)
-(* D6: check_matching_sizes dereferences a null column count when only the row count of an
-   operand is known (a MatrixMul ending in a MatrixSymbol) *)
-Definition half_known (s : osize) : bool :=
-  match s with (Some _, None) => true | _ => false end.
-Definition guard_half_size (l : list mexpr) : bool := existsb (fun e => half_known (size e)) l.
-
-(* D1: a ZeroMatrix argument of matrix_mul is returned as it is (wrong shape) *)
-Definition guard_mul_zero (args : list marg) : bool :=
-  match first_zero_arg args with Some _ => true | None => false end.
-
-(* D2: the scalar is dropped when all matrix factors are identity matrices *)
-Definition guard_mul_scalar_ident (args : list marg) : bool :=
-  let '(scalar, expanded) := expand_mul args e1 [] in
-  forallb is_MIdent expanded && negb (e_eqb scalar e1).
-
-(* D3: is_symmetric applies the MatrixAdd rule to a HadamardProduct *)
-Fixpoint has_had (e : mexpr) : bool :=
-  match e with
-  | MHad _ => true
-  | MAdd ts => existsb has_had ts
-  | _ => false
+(* matrix_mul with a ZeroMatrix argument builds ZeroMatrix(rows of the first, columns of the last
+   factor); when one of the two is unknown (a MatrixSymbol outermost) it returns the argument
+   itself, whose shape is in general not the shape of the product *)
+Definition outer_known (expanded : list mexpr) : bool :=
+  match map size expanded with
+  | [] => false
+  | s :: r => match fst s, snd (last r s) with Some _, Some _ => true | _, _ => false end
   end.
-
-(* D4: is_toeplitz starts a diagonal at row `nrows` when ncols >= nrows + 2 *)
-Definition guard_toeplitz_wide (e : mexpr) : bool :=
-  match e with MDense m n _ => m + 2 <=? n | _ => false end.
+Definition guard_mul_zero (args : list marg) : bool :=
+  match first_zero_arg args with
+  | Some _ => negb (outer_known (snd (expand_mul args e1 [])))
+  | None => false
+  end.
 
 (* the empty identity matrix is (vacuously) a zero matrix *)
 Definition empty_ident (rho : env) (e : mexpr) : bool :=
   match e with MIdent n => dval rho n =? 0 | _ => false end.
+
+(* the complete class invariants (is_canonical of every constructor): NOT preserved by the
+   folding rules (known finding C26/noncanonical-result) *)
+Definition is_identity_dense_b (n : nat) (v : list ent) : bool := is_identity_dense n v.
+Fixpoint canon (e : mexpr) : bool :=
+  match e with
+  | MIdent _ | MZero _ _ | MSym _ => true
+  | MDiag d => negb (length d =? 0) && negb (is_zero_vec d) && negb (is_identity_vec d)
+  | MDense m n v =>
+      (1 <=? m) && (1 <=? n) && (length v =? m * n) && negb (is_zero_vec v)
+      && negb ((m =? n) && is_identity_dense m v) && negb ((m =? n) && is_diagonal_dense m v)
+  | MAdd ts =>
+      (2 <=? length ts) && forallb (fun t => negb (is_MZero t || is_MAdd t)) ts
+      && (count_concrete ts <=? 1) && forallb canon ts
+  | MMul k fs =>
+      (1 <=? length fs) && negb ((length fs =? 1) && e_eqb k e1)
+      && (forallb (fun t => negb (is_MZero t || is_MIdent t || is_MMul t)) fs
+          || match fs with [MIdent _] => true | _ => false end)
+      && forallb canon fs
+  | MHad fs =>
+      (2 <=? length fs) && forallb (fun t => negb (is_MZero t || is_MHad t)) fs
+      && (count_concrete fs <=? 1) && (count_ident fs <=? 1) && forallb canon fs
+  | MConj a => match a with MSym _ | MMul _ _ => true | _ => false end && canon a
+  | MTrans a => trans_arg_ok a && canon a
+  end.
